@@ -665,6 +665,10 @@ class NetworkXPropertyGraph(ABCPropertyGraph, NetworkXMixin):
 
         # merge the nodes in situ
         nx.contracted_nodes(self.storage.get_graph(self.graph_id), real_node, real_other_node, copy=False)
+        # contracted_nodes also leaves its own 'contraction' bookkeeping on every link the two nodes had in
+        # common; it is not a link property (and holds internal node ids)
+        for nbr in self.storage.get_graph(self.graph_id).adj[real_node]:
+            self.storage.get_graph(self.graph_id).edges[real_node, nbr].pop('contraction', None)
 
         # deal with properties
         # remove all properties, including 'contracted' new property
